@@ -142,7 +142,7 @@ def run_direct(ctx: Ctx, cases, stream, with_model=True):
         if replies is None:
             continue
         ctx.streams_compared[stream] = ctx.streams_compared.get(stream, 0) + 1
-        mo = ks.decode(replies[i], False)
+        mo = ks.decode(replies[i], c["xi"] is not None)
         if "err" in mo:
             if mo["err"] not in ("err:singular", "err:zeroScale"):
                 ctx.disagree(stream, c, "ok", mo["err"])
@@ -166,7 +166,7 @@ def logscale(db, name, is_log, span):
     return np.log(v) if is_log else v
 
 
-def equation_residuals(mc, db, span, first):
+def equation_residuals(mc, db, span, first, with_ant=False):
     """residuals of every transition / measurement equation, from the generator's coefficient arrays, for span[first:]"""
     A0, A1, A2, E = (np.array(mc[k], dtype=float) for k in ("A0", "A1", "A2", "E"))
     M0, M1, Hw = (np.array(mc[k], dtype=float) for k in ("M0", "M1", "Hw"))
@@ -174,6 +174,13 @@ def equation_residuals(mc, db, span, first):
     X = np.array([logscale(db, f"x{j}", mc["logx"][j], span) for j in range(nx)])          # nx x nper
     O = np.array([logscale(db, f"o{j}", mc["logy"][j], span) for j in range(ny)])
     Ee = np.array([ks.series_values(db, f"e{j}", span) for j in range(ne)])
+    if with_ant:
+        # the shock of an equation is the sum of its unanticipated and anticipated values
+        Ee = Ee + np.array([np.nan_to_num(ks.series_values(db, f"ant_e{j}", span)) for j in range(ne)])
+    fwd = mc.get("fwd")
+    Fv = ks.series_values(db, "f", span) if fwd else None
+    load = np.array(fwd["load"], dtype=float) if fwd else np.zeros(nx)
+    mload = np.array(fwd["mload"], dtype=float) if fwd else np.zeros(ny)
     Ww = np.array([ks.series_values(db, f"w{j}", span) for j in range(nw)]).reshape(nw, X.shape[1])
     c = np.array(mc["c"], dtype=float); d = np.array(mc["d"], dtype=float)
     tr, me = [], []
@@ -181,9 +188,54 @@ def equation_residuals(mc, db, span, first):
         x2 = X[:, t - 2] if t >= 2 else np.full(nx, np.nan)
         if not A2.any():
             x2 = np.zeros(nx)
-        tr.append(X[:, t] - (A0 @ X[:, t] + A1 @ X[:, t - 1] + A2 @ x2 + c + E @ Ee[:, t]))
-        me.append(O[:, t] - (M0 @ X[:, t] + M1 @ X[:, t - 1] + d + (Hw @ Ww[:, t] if nw else 0.0)))
+        ft = Fv[t] if fwd else 0.0
+        tr.append(X[:, t] - (A0 @ X[:, t] + A1 @ X[:, t - 1] + A2 @ x2 + c + E @ Ee[:, t] + load * ft))
+        me.append(O[:, t] - (M0 @ X[:, t] + M1 @ X[:, t - 1] + d + (Hw @ Ww[:, t] if nw else 0.0) + mload * ft))
     return np.array(tr), np.array(me)
+
+
+def check_identities(ctx: Ctx, cw, case, m, db, span, sm, prefix, with_ant=False, sim_db=None, column=None):
+    """(1) smoothed observables = data where observed, (2) transition / observed measurement equations with the generator's own
+    coefficients, (3) level = exp(log) for log-variables, (4) re-simulation with the smoothed shocks from in-sample smoothed
+    initial conditions.  `sm` is a single-variant smooth_med; `sim_db`/`column` = the (multi-variant) databox to simulate from and
+    the column to compare"""
+    mc, data = case["mc"], case["data"]
+    nper = data["nper"]; ny = len(mc["logy"]); nx = len(mc["logx"])
+    lag = 2 if np.array(mc["A2"]).any() else 1
+    for i in range(ny):
+        got = ks.series_values(sm, f"o{i}", span); want = ks.series_values(db, f"o{i}", span)
+        for t in range(nper):
+            if data["mask"][t][i] and not iclose([got[t]], [want[t]], 1e-12):
+                fail(ctx, prefix + "-smoothed-observables", cw, f"o{i} t={t}: smooth_med={got[t]!r} data={want[t]!r}")
+    mcd = mc
+    if case["deviation"]:
+        mcd = dict(mc); mcd["c"] = [0.0] * nx; mcd["d"] = [0.0] * ny
+    tr, me = equation_residuals(mcd, sm, span, lag, with_ant=with_ant)
+    if tr.size and not iclose(tr, np.zeros_like(tr)):
+        bad_t = [int(t) + lag for t in np.where(~(np.abs(tr) <= ITOL).all(axis=1))[0]]
+        fail(ctx, prefix + "-transition-equations", cw, f"max residual {np.nanmax(np.abs(tr))!r} (nan={bool(np.isnan(tr).any())}) in periods {bad_t} of {nper}")
+    for k, t in enumerate(range(lag, nper)):
+        for i in range(ny):
+            if data["mask"][t][i] and not abs(me[k, i]) <= ITOL * (1 + abs(data["y"][t][i])):
+                fail(ctx, prefix + "-measurement-equations", cw, f"o{i} t={t}: residual {me[k, i]!r}")
+    for j in range(nx):
+        if mc["logx"][j]:
+            if not iclose(ks.series_values(sm, f"x{j}", span), np.exp(ks.series_values(sm, f"log(x{j})", span)), 1e-12):
+                fail(ctx, prefix + "-log-output", cw, f"x{j} != exp(log(x{j})) in smooth_med")
+    if nper > lag:
+        start = span.start
+        sim_span = (start + lag) >> (start + (nper - 1))
+        try:
+            r = m.simulate(sim_db if sim_db is not None else sm, sim_span, method="first_order", deviation=case["deviation"])
+            sdb = r[0] if isinstance(r, tuple) else r
+            for name in [f"x{j}" for j in range(nx)] + (["f"] if mc.get("fwd") else []):
+                a = np.array(sdb[name].get_data(sim_span), dtype=float)
+                a = a.reshape(a.shape[0], -1)[:, column or 0]
+                b = ks.series_values(sm, name, sim_span)
+                if not iclose(a, b, 1e-7):
+                    fail(ctx, prefix + "-resimulation", cw, f"{name}: simulated {a.tolist()} smoothed {b.tolist()}")
+        except Exception as e:
+            fail(ctx, prefix + "-resimulation", cw, "simulate raises " + repr(e)[:200])
 
 
 def oracle_e2e(ctx: Ctx, case):
@@ -197,46 +249,10 @@ def oracle_e2e(ctx: Ctx, case):
         m, db, span, out, info = ks.run_e2e(case)
     except Exception as e:
         fail(ctx, "e2e-raises", cw, repr(e)[:300]); return
-    sm = out["smooth_med"]
     nper = data["nper"]; ny = len(mc["logy"]); nx = len(mc["logx"])
-    lag = 2 if np.array(mc["A2"]).any() else 1
-    xbar, ybar = ks.steady_logscale(mc)
-    # (1) smoothed observables are the data wherever data exist
-    for i in range(ny):
-        got = ks.series_values(sm, f"o{i}", span); want = ks.series_values(db, f"o{i}", span)
-        for t in range(nper):
-            if data["mask"][t][i] and not iclose([got[t]], [want[t]], 1e-12):
-                fail(ctx, "e2e-smoothed-observables", cw, f"o{i} t={t}: smooth_med={got[t]!r} data={want[t]!r}")
-    # (2) transition equations, and measurement equations on observed rows, with smoothed values
-    mcd = mc
-    if case["deviation"]:
-        mcd = dict(mc); mcd["c"] = [0.0] * nx; mcd["d"] = [0.0] * ny
-    tr, me = equation_residuals(mcd, sm, span, lag)
-    if tr.size and not iclose(tr, np.zeros_like(tr)):
-        fail(ctx, "e2e-transition-equations", cw, f"max residual {np.nanmax(np.abs(tr))!r} (nan={bool(np.isnan(tr).any())})")
-    for k, t in enumerate(range(lag, nper)):
-        for i in range(ny):
-            if data["mask"][t][i] and not abs(me[k, i]) <= ITOL * (1 + abs(data["y"][t][i])):
-                fail(ctx, "e2e-measurement-equations", cw, f"o{i} t={t}: residual {me[k, i]!r}")
-    # (3) log-variables: level output is exp of the log output
-    for j in range(nx):
-        if mc["logx"][j]:
-            if not iclose(ks.series_values(sm, f"x{j}", span), np.exp(ks.series_values(sm, f"log(x{j})", span)), 1e-12):
-                fail(ctx, "e2e-log-output", cw, f"x{j} != exp(log(x{j})) in smooth_med")
-    # (4) re-simulation with the smoothed shocks from smoothed initial conditions inside the sample
-    if nper > lag:
-        import irispie as ir
-        start = span.start
-        sim_span = (start + lag) >> (start + (nper - 1))
-        try:
-            r = m.simulate(sm, sim_span, method="first_order", deviation=case["deviation"])
-            sdb = r[0] if isinstance(r, tuple) else r
-            for j in range(nx):
-                a = ks.series_values(sdb, f"x{j}", sim_span); b = ks.series_values(sm, f"x{j}", sim_span)
-                if not iclose(a, b, 1e-7):
-                    fail(ctx, "e2e-resimulation", cw, f"x{j}: simulated {a.tolist()} smoothed {b.tolist()}")
-        except Exception as e:
-            fail(ctx, "e2e-resimulation", cw, "simulate raises " + repr(e)[:200])
+    unit = mc.get("unit") is not None
+    check_identities(ctx, cw, case, m, db, span, out["smooth_med"], "e2e")
+    sm = out["smooth_med"]
     # (5) from the smoothed initial condition (prepend_initial=True)
     try:
         m2, db2, span2, out2, info2 = ks.run_e2e(case, m=m, prepend_initial=True)
@@ -250,6 +266,9 @@ def oracle_e2e(ctx: Ctx, case):
     except Exception as e:
         fail(ctx, "prepend-initial", cw, "kalman_filter(prepend_initial=True) + simulate raises " + repr(e)[:200])
     # (6) deviation mode on data minus steady state = level results minus steady state
+    if unit:
+        return
+    xbar, ybar = ks.steady_logscale(mc)
     c_lvl = dict(case); c_lvl["deviation"] = False
     c_dev = dict(case); c_dev["deviation"] = True
     try:
@@ -277,13 +296,71 @@ def oracle_e2e(ctx: Ctx, case):
         fail(ctx, "e2e-deviation", cw, f"likelihood differs: {i_d['neg_log_likelihood']} vs {i_l['neg_log_likelihood']}")
 
 
+def run_variants(ctx: Ctx, cases):
+    """several parameter variants in one model object: every variant's smoothed output must satisfy the equations with THAT
+    variant's parameters and be reproduced by the simulator"""
+    for i, c in enumerate(cases):
+        ctx.evaluations += 1
+        cw = {"stream": "variants", "case": c}
+        nv = len(c["mcs"])
+        cvs = [{"mc": mc, "data": c["data"], "deviation": False, "rescale": False} for mc in c["mcs"]]
+        if any(ks.e2e_batch(cv).condS() > 1e8 for cv in cvs):
+            ctx.count("variants:degenerate_joint_distribution_skipped"); continue
+        try:
+            m, db, span, out, info = ks.run_variants(c)
+        except Exception as e:
+            fail(ctx, "variants-raises", cw, repr(e)[:300]); continue
+        ctx.count(f"variants:nv={nv}")
+        ctx.nontriv(("variants", json.dumps(c["mcs"], sort_keys=True), json.dumps(c["data"]["mask"])))
+        if i < 1:
+            ctx.sample({"stream": "variants", "source": ks.model_source(c["mcs"][0], params=True),
+                        "own_lag_coefficients": [[mc["A1"][k][k] for k in range(len(mc["logx"]))] for mc in c["mcs"]]})
+        for v in range(nv):
+            sm_v = ks.slice_databox(out["smooth_med"], v, nv, span)
+            check_identities(ctx, dict(cw, variant=v), cvs[v], m, db, span, sm_v, "variants", sim_db=out["smooth_med"], column=v)
+
+
+def run_sequences(ctx: Ctx, cases):
+    """forward-looking models, shock means (unanticipated, anticipated, measurement) from data, and other operations (simulate with
+    anticipated shocks, an earlier filter run) on the same solved model object before the filter run that is checked"""
+    for i, c in enumerate(cases):
+        ctx.evaluations += 1
+        cw = {"stream": "sequence", "case": c}
+        try:
+            m, db, span, out, info = ks.run_sequence(c)
+        except np.linalg.LinAlgError:
+            ctx.count("sequence:singular_skipped"); continue
+        except Exception as e:
+            if c["mc"].get("fwd") and ("solv" in repr(e).lower() or "stab" in repr(e).lower() or "saddle" in repr(e).lower()):
+                ctx.count("sequence:no_stable_solution_skipped"); continue
+            fail(ctx, "sequence-raises", cw, repr(e)[:300]); continue
+        F = out.get("predict_mse_obs") if hasattr(out, "get") else None
+        try:
+            conds = [np.linalg.cond(f) for f in out["predict_mse_obs"][0] if f is not None and np.size(f)]
+            if conds and max(conds) > ks.COND_MAX:
+                ctx.count("sequence:ill_conditioned_skipped"); continue
+        except Exception:
+            pass
+        ctx.count(f"sequence:ops={'>'.join(c['ops'])}"); ctx.count(f"sequence:forward={c['mc'].get('fwd') is not None}")
+        ctx.nontriv(("sequence", json.dumps(c["mc"], sort_keys=True), json.dumps(c["ant"]), tuple(c["ops"])))
+        if i < 1:
+            ctx.sample({"stream": "sequence", "source": ks.model_source(c["mc"]), "ops": c["ops"], "anticipated": c["ant"]})
+        sm = out["smooth_med"]
+        for j in range(len(c["mc"]["std_e"])):
+            got = np.nan_to_num(ks.series_values(sm, f"ant_e{j}", span))
+            if not iclose(got, [r[j] for r in c["ant"]], 1e-12):
+                fail(ctx, "sequence-anticipated-values", cw, f"ant_e{j} in smooth_med {got.tolist()} != input")
+        check_identities(ctx, cw, c, m, db, span, sm, "sequence", with_ant=True)
+
+
 def run_e2e(ctx: Ctx, cases):
     for i, c in enumerate(cases):
         ctx.evaluations += 1
         mc, data = c["mc"], c["data"]
         ctx.count(f"e2e:nx={len(mc['logx'])}"); ctx.count(f"e2e:ny={len(mc['logy'])}"); ctx.count(f"e2e:T={data['nper']}")
         ctx.count(f"e2e:deviation={c['deviation']}"); ctx.count(f"e2e:logs={any(mc['logx']) or any(mc['logy'])}")
-        ctx.count(f"e2e:lag2={bool(np.array(mc['A2']).any())}")
+        ctx.count(f"e2e:lag2={bool(np.array(mc['A2']).any())}"); ctx.count(f"e2e:unit_root={mc.get('unit') is not None}")
+        if not any(data["mask"][-1]): ctx.count("e2e:forecast_tail")
         ctx.nontriv(("e2e", json.dumps(mc, sort_keys=True), json.dumps(data["mask"]), c["deviation"]))
         if i < 2:
             ctx.sample({"stream": "e2e", "source": ks.model_source(mc), "mask": data["mask"], "deviation": c["deviation"]})
@@ -299,6 +376,10 @@ def run_payload(ctx: Ctx, payload, with_model=True):
     inner = case.get("case") if isinstance(case, dict) and "case" in case else case
     if isinstance(inner, dict) and "T" in inner:
         run_direct(ctx, [inner], "replay", with_model)
+    elif isinstance(inner, dict) and "mcs" in inner:
+        run_variants(ctx, [inner])
+    elif isinstance(inner, dict) and "ops" in inner:
+        run_sequences(ctx, [inner])
     elif isinstance(inner, dict) and "mc" in inner:
         run_e2e(ctx, [inner])
 
@@ -307,15 +388,26 @@ def run(ctx: Ctx):
     ctx.rule = ("direct stream: random systems n<=5 states, <=3 observables, T<=12, dyadic entries, time-varying stds, shock means, random "
                 "missing masks (incl. empty periods and no observations at the end); e2e: random linear Simultaneous models (1-3 variables, "
                 "lags <=2, contemporaneous terms, log-variables, 1-3 observables with/without measurement shocks), simulated data, masks, "
-                "time-varying stds, deviation flag. distinct_nontrivial = distinct (sizes, mask) direct cases with T>1 and an observation "
+                "time-varying stds, deviation flag, forecast tails; the same with one unit-root variable (fixed_unknown); variants: 2-3 parameter "
+                "variants differing in own-lag coefficients/constants/stds, each checked with its own parameters; sequence: forward-looking "
+                "models, shocks_from_data=True with unanticipated/anticipated/measurement shock means, preceded by simulate/filter calls on "
+                "the same model object. distinct_nontrivial = distinct (sizes, mask) direct cases with T>1 and an observation "
                 "+ distinct (model, mask, deviation) e2e cases")
     for p in sorted(glob.glob(os.path.join(VERIF, "corpus", "C08", "*.json"))):
         ctx.count("corpus")
         run_payload(ctx, json.load(open(p)))
     rng = ctx.rng.fork("direct")
     run_direct(ctx, [ks.gen_system(rng.fork(i)) for i in range(ctx.n(100, 2000))], "direct")
+    rng = ctx.rng.fork("xi")
+    run_direct(ctx, [ks.gen_system(rng.fork(i), unknown_init=True) for i in range(ctx.n(40, 500))], "direct-unknown-init")
     rng = ctx.rng.fork("e2e")
     run_e2e(ctx, [ks.gen_e2e_case(rng.fork(i), 8 if ctx.quick else 12) for i in range(ctx.n(40, 500))])
+    rng = ctx.rng.fork("e2e-unit-root")
+    run_e2e(ctx, [ks.gen_e2e_case(rng.fork(i), 8 if ctx.quick else 12, unit_root=True) for i in range(ctx.n(16, 200))])
+    rng = ctx.rng.fork("variants")
+    run_variants(ctx, [ks.gen_variant_case(rng.fork(i)) for i in range(ctx.n(10, 120))])
+    rng = ctx.rng.fork("sequence")
+    run_sequences(ctx, [ks.gen_sequence_case(rng.fork(i)) for i in range(ctx.n(20, 250))])
 
 
 def search(ctx: Ctx, seeds):
@@ -328,6 +420,10 @@ def search(ctx: Ctx, seeds):
     rng = ctx.rng.fork("search")
     run_direct(ctx, [ks.gen_system(rng.fork(i)) for i in range(1500)], "direct", with_model=False)
     run_e2e(ctx, [ks.gen_e2e_case(rng.fork(("e", i).__repr__()), 10) for i in range(300)])
+    run_direct(ctx, [ks.gen_system(rng.fork(("x", i).__repr__()), unknown_init=True) for i in range(300)], "direct-unknown-init", with_model=False)
+    run_e2e(ctx, [ks.gen_e2e_case(rng.fork(("u", i).__repr__()), 10, unit_root=True) for i in range(100)])
+    run_variants(ctx, [ks.gen_variant_case(rng.fork(("v", i).__repr__())) for i in range(60)])
+    run_sequences(ctx, [ks.gen_sequence_case(rng.fork(("s", i).__repr__())) for i in range(120)])
 
 
 def replay(ctx: Ctx, payload):
